@@ -197,4 +197,40 @@ def r4_ordering(chk):
            'buildIndex must hand the existing index to genIndex')
 
 
-RULES = [r1_componentwise_prefix, r2_attribute_chain, r3_sections_monotone, r4_ordering]
+def r5_index_file_roundtrip(chk):
+    model = chk.model
+    ci = model.cls('pysmi/writer/localfile.py', 'FileWriter')
+    mod = ci.mod
+    chk.doc('C18.R5', 'FileWriter.getData reads the file putData writes: both build os.path.join(self._path, '
+                      'decode(<name>)) + self.suffix; read errors yield the empty string (no earlier index)')
+    paths = {}
+    for m in ('getData', 'putData'):
+        o, fn = ci.find_method(m)
+        chk.subject(fn, 'FileWriter.%s' % m)
+        p = fn.args.args[1].arg
+        js = [norm(s.value).replace(p, 'NAME') for s in walk_no_nested(fn) if isinstance(s, ast.Assign) and
+              'os.path.join(self._path' in norm(s.value)]
+        paths[m] = js
+    ok = len(paths['getData']) == 1 and paths['getData'] == paths['putData'] and \
+        paths['getData'][0] == 'os.path.join(self._path, decode(NAME)) + self.suffix'
+    chk.ob('C18.R5', 'FileWriter/getData-reads-what-putData-writes', ok, where(mod, ci.node),
+           'putData stores %s, getData reads %s: the earlier index is never found and an incremental build starts '
+           'from scratch' % (paths['putData'], paths['getData']))
+    o, gd = ci.find_method('getData')
+    rets = [norm(x.value) for x in walk_no_nested(gd) if isinstance(x, ast.Return) and x.value is not None]
+    chk.ob('C18.R5', 'FileWriter.getData/returns-content-or-empty', len(rets) == 2 and "''" in rets, where(mod, gd),
+           'returns %s' % rets)
+
+
+def r6_summary_objects(chk):
+    from vt.runner import Check
+    from rules.C01 import r7b_summary_not_aliased
+    chk.doc('C18.R6', 'the OID collections a status carries are the module\'s own objects (not one shared, cleared '
+                      'object): see C01.R7b / C12.R3')
+    tmp = Check(chk.prop, chk.tier, chk.model, chk.repo)
+    r7b_summary_not_aliased(tmp)
+    for o in tmp.obligations:
+        chk.ob('C18.R6', o.key, o.ok, o.where, o.detail)
+
+
+RULES = [r1_componentwise_prefix, r2_attribute_chain, r3_sections_monotone, r4_ordering, r5_index_file_roundtrip, r6_summary_objects]
